@@ -126,6 +126,20 @@ def fixed_families():
             pk[MOD + "/a"]["config"].pop("recursive")
         files[".mockery.yml"] = json.dumps(cfg, indent=1)
         fams.append({"kind": "family", "i": -1 - len(fams), "files": files, "placement": tag})
+    # file-scope template-data keys (mock-build-tags, boilerplate-file) set on single interfaces only, one output file per interface:
+    # what one file gets must not depend on which sibling file of the package was rendered before it
+    for tag, tmpl in (("file-scope-keys-at-interface-level-testify", "testify"), ("file-scope-keys-at-interface-level-matryer", "matryer")):
+        files = {"hdr/boiler.txt": "// Copyright (c) Example Corp.\n"}
+        body = "package w\n\n" + "".join("type W%d interface{ M%d(x int) error }\n\n" % (k, k) for k in range(6))
+        files["w/a.go"] = body
+        ifs = {"W%d" % k: {} for k in range(6)}
+        ifs["W1"] = {"config": {"template-data": {"mock-build-tags": "onlyw1"}}}
+        ifs["W3"] = {"config": {"template-data": {"boilerplate-file": "hdr/boiler.txt"}}}
+        ifs["W4"] = {"configs": [{"structname": "W4a"}, {"structname": "W4b", "template-data": {"mock-build-tags": "onlyw4b"}}]}
+        cfg = {"force-file-write": True, "template": tmpl, "filename": "mock_{{.StructName}}.go", "dir": "{{.InterfaceDir}}/mocks", "pkgname": "mocks",
+               "packages": {MOD + "/w": {"interfaces": ifs}}}
+        files[".mockery.yml"] = json.dumps(cfg, indent=1)
+        fams.append({"kind": "family", "i": -1 - len(fams), "files": files, "placement": tag})
     return fams
 
 
